@@ -6,9 +6,9 @@ import sys
 import z3
 
 from pyvc import pybuiltins
-from pyvc.sorts import CLS, I, S, SeqV, V, mkb, mki, mkr, mks
+from pyvc.sorts import CLS, I, S, V, mkb, mki, mkr, mks
 from pyvc.state import Val
-from pyvc.types import DictT, ListT, NoneType, Opt, SeqRaw, SetT, TupleT
+from pyvc.types import DictT, ListT, NoneType, Opt, SetT, TupleT
 from pyvc.world import ClassSchema, Contract, SpecFun, World
 
 
